@@ -54,7 +54,12 @@ def include_programs(rng, n):
         else:
             a += [pp.define("E", None, []), pp.nl()]
         a += [t(), pp.nl()]
-        top = [t(), pp.nl(), pp.inc("a.svh", form=rng.choice([0, 1])), pp.nl(), t(), pp.use("MA", [[pp.bt("lit", "arg%d" % i)]]), t(), pp.nl()]
+        top = [t(), pp.nl()]
+        if rng.random() < 0.5:
+            # multi-byte characters ahead of an `include: byte offsets and character counts part ways
+            top += [pp.cmt(" \u00a9 \u00e9%d \u65e5\u672c " % i, block=rng.random() < 0.5), pp.nl()]
+            a = [pp.cmt(" \u00fc ", block=True), pp.nl()] + a
+        top += [pp.inc("a.svh", form=rng.choice([0, 1])), pp.nl(), t(), pp.use("MA", [[pp.bt("lit", "arg%d" % i)]]), t(), pp.nl()]
         if rng.random() < 0.7:
             top += [pp.use("E"), t(), pp.nl()]          # empty expansion followed by text
         if rng.random() < 0.5:
@@ -174,7 +179,7 @@ def run(tier, seed):
     v.add_tv("Origins_Trace", stats, len(maprecs) + len(leafrecs))
     for rid, reasons in bad.items():
         v.violation("%s files %s: %s" % (by_id[rid]["kind"], json.dumps(by_id[rid].get("files"))[:300], "; ".join(reasons)[:500]), by_id[rid])
-    v.assumptions = ["renderer/tokeniser of lib/pp.py", "hook events push/merge/pp_enter/pp_leave are emitted at the call sites", "ASCII sources (offsets are compared as characters inside TLC)"]
+    v.assumptions = ["renderer/tokeniser of lib/pp.py", "hook events push/merge/pp_enter/pp_leave are emitted at the call sites", "trace records reach TLC in byte view (vlib.byteview_json): one character inside TLC = one byte of the file"]
     return v.finish(rule="conditional/macro programs exported by TLC, seeded macro programs, include programs (3 files, macros crossing files, "
                          "empty expansions, glued usages, kept directives, __FILE__/__LINE__, caller-supplied macros); "
                          "non-trivial = successful runs whose origin map has >=3 runs from >=2 sources",
